@@ -10,7 +10,7 @@ import (
 
 func init() {
 	register("C13", propMeta{
-		Explanation: "E-PANIC + E-GUARD. O-1/O-2: over every repository function reachable from the untrusted session-description entry points (util.DeserializeSessionDescription, util.SerializeSessionDescription, util.StripLocalAddresses, proxy/lib.remoteIPFromSDP) no explicit panic, log.Fatal/os.Exit, or single-value type assertion that is not discharged (dominating comma-ok of the same value, container callback tables) exists, and every constant index into a regexp submatch result is within the pattern's capture groups and behind a != nil test. O-3: in every caller, the *SessionDescription returned by a (pointer, error) call is dereferenced only through the err == nil edge of that call. These are necessary conditions of 'never panic': each violating construct is a concrete crash path for some input. Added after the second seeding round: O-5 in every client/proxy function returning (pointer, error) that feeds a description parameter to a fallible call, no return reachable from that call's failure edge yields (nil, possibly-nil error); O-6 no function of common/util keeps package-level mutable state (a shared buffer/encoder for serialising descriptions). Added after the third seeding round: O-2b a constant index is used only behind a length test of the same slice; O-3c a pointer that can be nil on an edge where the accompanying error is nil (shadowed err, error of an earlier call) is not dereferenced or passed on; O-5 DeserializeSessionDescription has no (nil, nil) return. Added after the fourth seeding round: O-2b covers constant indexes into strings (msg[0] on a blank message); O-3d no method is invoked on an error value that may be nil (if err != nil || other { ... err.Error() }). Added after the fifth seeding round: O-3e no method is invoked on reflect.TypeOf(x) without a nil test, and a function literal that dereferences the pointer result of a (pointer, error) call is created only behind that call's err == nil edge (probe server included). Added after the sixth seeding round and the mutation audit: O-3f a method is invoked on an interface value that a repository function may return as nil (RemoteAddr without a public candidate) only behind a nil test - parameters are followed to their callers through the VTA call graph, method-value wrappers and go statements included; O-7 the SDP of the deserialised description is the decoded member itself; O-7/C15 the event-error obligation of C15.",
+		Explanation: "E-PANIC + E-GUARD. O-1/O-2: over every repository function reachable from the untrusted session-description entry points (util.DeserializeSessionDescription, util.SerializeSessionDescription, util.StripLocalAddresses, proxy/lib.remoteIPFromSDP) no explicit panic, log.Fatal/os.Exit, or single-value type assertion that is not discharged (dominating comma-ok of the same value, container callback tables) exists, and every constant index into a regexp submatch result is within the pattern's capture groups and behind a != nil test. O-3: in every caller, the *SessionDescription returned by a (pointer, error) call is dereferenced only through the err == nil edge of that call. These are necessary conditions of 'never panic': each violating construct is a concrete crash path for some input. Added after the second seeding round: O-5 in every client/proxy function returning (pointer, error) that feeds a description parameter to a fallible call, no return reachable from that call's failure edge yields (nil, possibly-nil error); O-6 no function of common/util keeps package-level mutable state (a shared buffer/encoder for serialising descriptions). Added after the third seeding round: O-2b a constant index is used only behind a length test of the same slice; O-3c a pointer that can be nil on an edge where the accompanying error is nil (shadowed err, error of an earlier call) is not dereferenced or passed on; O-5 DeserializeSessionDescription has no (nil, nil) return. Added after the fourth seeding round: O-2b covers constant indexes into strings (msg[0] on a blank message); O-3d no method is invoked on an error value that may be nil (if err != nil || other { ... err.Error() }). Added after the fifth seeding round: O-3e no method is invoked on reflect.TypeOf(x) without a nil test, and a function literal that dereferences the pointer result of a (pointer, error) call is created only behind that call's err == nil edge (probe server included). Added after the sixth seeding round and the mutation audit: O-3f a method is invoked on an interface value that a repository function may return as nil (RemoteAddr without a public candidate) only behind a nil test - parameters are followed to their callers through the VTA call graph, method-value wrappers and go statements included; O-7 the SDP of the deserialised description is the decoded member itself; O-7/C15 the event-error obligation of C15. O-8/O-9 the two error-discipline rules for common/util.",
 		NotDecided:  "panics inside third-party parsers (pion/sdp, pion/ice, encoding/json) - trusted base; the serialise/deserialise round-trip equality (value-level); variable-index slice accesses.",
 		Assumptions: []string{"third-party and standard-library callees do not panic on any input", "pion: RemoteDescription()/LocalDescription() are non-nil after a successful Set*Description"},
 	}, runC13)
@@ -58,6 +58,8 @@ func runC13(c *Ctx) {
 	c.checkSDPSchema()
 	c.checkRejectionHasError("O-5 a rejected description is reported as an error")
 	c.checkNilPhiDerefs("O-3c a pointer that is nil on some path is not dereferenced there", p.FnsIn("client/lib", "proxy/lib", "common/util"))
+	c.checkDecodeErrorsConsumed("O-8 a decoding step's error is part of the verdict", p.FnsIn("common/util"))
+	c.checkErrorBranchesLeave("O-9 a failed step ends the function", p.FnsIn("common/util"))
 	c.checkNilErrorInvokes("O-3d no method is invoked on an error that may be nil", p.FnsIn("client/lib", "proxy/lib", "common/util"))
 	// the address taken from a description may be absent (no public candidate): RemoteAddr() then returns nil
 	c.checkNilInterfaceResults("O-3f no method is invoked on an interface result that may be nil", p.FnsIn("client/lib", "proxy/lib", "common/util"))
